@@ -502,7 +502,14 @@ where
             self.cached = None;
         }
         // matrix of weighted model function values
-        let Phi_w = self.model.eval().ok().map(|Phi| &self.weights * Phi);
+        // a non-finite weighted function matrix is not a valid state: the SVD
+        // below panics or does not terminate on NaN or infinite entries
+        let Phi_w = self
+            .model
+            .eval()
+            .ok()
+            .map(|Phi| &self.weights * Phi)
+            .filter(|Phi_w| Phi_w.iter().all(|v| v.is_finite()));
 
         // calculate the svd
         let svd_epsilon = self.svd_epsilon;
@@ -640,7 +647,14 @@ where
             self.cached = None;
         }
         // matrix of weighted model function values
-        let Phi_w = self.model.eval().ok().map(|Phi| &self.weights * Phi);
+        // a non-finite weighted function matrix is not a valid state: the SVD
+        // below panics or does not terminate on NaN or infinite entries
+        let Phi_w = self
+            .model
+            .eval()
+            .ok()
+            .map(|Phi| &self.weights * Phi)
+            .filter(|Phi_w| Phi_w.iter().all(|v| v.is_finite()));
 
         // calculate the svd
         let svd_epsilon = self.svd_epsilon;
